@@ -68,7 +68,7 @@ pub fn run() {
     let mut rep = Report::new("C15", "model_checking");
     let thorough = rep.thorough();
     // component part
-    let lru = lru::search(if thorough { 8 } else { 6 }, if thorough { 600.0 } else { 20.0 });
+    let lru = lru::search(if thorough { 8 } else { 6 }, mc::budget(thorough, 20.0, 0.3));
     rep.set("lru_component_states", lru.states);
     rep.set("lru_component_transitions", lru.transitions);
     for (k, v) in &lru.counters {
@@ -82,7 +82,7 @@ pub fn run() {
     let monitors = Monitors { c03: false, c04: false, c13: false, c15: true, c19: false };
     let d = Idler { max_idles: if thorough { 3 } else { 2 } };
     let cfgs = configs(thorough);
-    let budget = if thorough { 1800.0 } else { 40.0 };
+    let budget = mc::budget(thorough, 40.0, 0.7);
     let start = clock::wall();
     let per = budget / cfgs.len() as f64;
     let (mut states, mut trans, mut execs, mut steps) = (lru.states, lru.transitions, lru.executions, 0u64);
